@@ -424,7 +424,7 @@ impl Property for C08 {
         700
     }
     fn quick_cases(&self) -> u64 {
-        40_000
+        400_000
     }
     fn states_termination(&self) -> bool {
         true
